@@ -87,6 +87,9 @@ def make_loss(spec):
         return GslDivLoss(**o)
     if k == "likelihood":
         return LikelihoodLoss(**o)
+    if k == "readoff":
+        from sim.peers import ReadOffLoss
+        return ReadOffLoss(**o)
     raise ValueError(k)
 
 
@@ -231,6 +234,16 @@ def gen_loss(rng: random.Random, D, kinds=None):  # noqa: N803
     return {"cls": k, "opts": o}
 
 
+def gen_seed(rng: random.Random):
+    """seeds with the boundary values over-represented (0 is falsy: `if seed:` / `seed or default` slips)"""
+    u = rng.random()
+    if u < 0.15:
+        return 0
+    if u < 0.2:
+        return 1
+    return rng.randrange(2 ** 31)
+
+
 def gen_config(rng: random.Random, *, rl_prob=0.25, kinds=None, loss_kinds=None, max_dims=4, max_bs=4,
                extreme_prob=0.0, model_kinds=("gauss", "ar1", "mix"), feature=None):
     dims = rng.randint(1, max_dims)
@@ -247,7 +260,7 @@ def gen_config(rng: random.Random, *, rl_prob=0.25, kinds=None, loss_kinds=None,
         "model": {"kind": rng.choice(list(model_kinds)), "D": D,
                   "extreme": (rng.choice([0.1, 0.3]) if rng.random() < extreme_prob else 0.0)},
         "N": N, "sim_length": None, "real_seed": rng.randrange(1000),
-        "ensemble": rng.randint(1, 3), "cal_seed": rng.randrange(2 ** 31), "convergence_precision": None,
+        "ensemble": rng.randint(1, 3), "cal_seed": gen_seed(rng), "convergence_precision": None,
     }
     sl = rng.choice([None, None, N, N + 5])
     # a simulation length different from the data length only makes sense for losses that compare summaries
@@ -625,7 +638,7 @@ class CalSim:
         cs = self.env["ctor_seed"]
         seeds = random.Random(derive_seed("ctor", cs))
         def cseed():
-            return None if cs is None else seeds.randrange(2 ** 31)
+            return None if cs is None else gen_seed(seeds)
         samplers = [make_sampler(s, cseed()) for s in cfg["lineup"]]
         m = cfg["model"]
         self.model = models.HarnessModel(m["kind"], m["D"], m.get("extreme", 0.0), m.get("mutates", False), m.get("scale", 1.0))
@@ -674,6 +687,7 @@ class CalSim:
             raise
         except Exception as e:  # noqa: BLE001
             res["exc"] = (type(e).__name__, str(e)[:300])
+        res["n_batches"] = len(self.batches) - first
         res["snap"] = self.snapshot()
         # only the exception type goes into the event log: messages may carry timestamps or addresses (XGBoost does)
         self.log.add("calibrate-end", n, res["exc"][0] if res["exc"] else None, arr_digest(cal.params_samp), arr_digest(cal.losses_samp),
@@ -689,7 +703,7 @@ class CalSim:
         dims = prng.randint(1, 3)
         cfg = {"space": gen_space(prng, dims), "lineup": [gen_sampler_spec(prng, k, 2) for k in ("halton", "rseq", "pso", "bestbatch")],
                "scheduler": {"kind": "rr"}, "loss": {"cls": "minkowski", "opts": {}}, "model": {"kind": "gauss", "D": 1, "extreme": 0.0},
-               "N": 8, "sim_length": None, "real_seed": 1, "ensemble": 1, "cal_seed": prng.randrange(2 ** 31), "convergence_precision": None}
+               "N": 8, "sim_length": None, "real_seed": 1, "ensemble": 1, "cal_seed": gen_seed(prng), "convergence_precision": None}
         keep_model = self.model
         cal = self.build(cfg, folder=None)
         saved, self.cal = self.cal, None          # seam recorders ignore the prelude
@@ -831,16 +845,16 @@ class CalSim:
             return {"op": ["new_run"], "exc": None, "ret": None, "snap": self.snapshot()}
         if kind == "set_samplers":
             cs = random.Random(derive_seed("set_samplers", len(self.op_results)))
-            self.cal.set_samplers([make_sampler(sp, cs.randrange(2 ** 31)) for sp in op[1]])
+            self.cal.set_samplers([make_sampler(sp, gen_seed(cs)) for sp in op[1]])
             return {"op": op, "exc": None, "ret": None, "snap": self.snapshot()}
         if kind == "set_scheduler":
             from black_it.schedulers.round_robin import RoundRobinScheduler
             cs = random.Random(derive_seed("set_scheduler", len(self.op_results)))
-            samplers = [make_sampler(sp, cs.randrange(2 ** 31)) for sp in op[1]["lineup"]]
+            samplers = [make_sampler(sp, gen_seed(cs)) for sp in op[1]["lineup"]]
             if op[1].get("kind", "rr") == "rl":
-                sch = make_scheduler(op[1], samplers, cs.randrange(2 ** 31))
+                sch = make_scheduler(op[1], samplers, gen_seed(cs))
             else:
-                sch = RoundRobinScheduler(samplers, random_state=cs.randrange(2 ** 31))   # None would reseed from OS entropy
+                sch = RoundRobinScheduler(samplers, random_state=gen_seed(cs))   # None would reseed from OS entropy
             self.cal.set_scheduler(sch)
             return {"op": op, "exc": None, "ret": None, "snap": self.snapshot()}
         raise ValueError(op)
